@@ -207,5 +207,6 @@ def run(tier, seed, replay=None):
         "samples": [{"cell": list(cells[7][:3]), "source": cells[7][3]}],
         "traces_validated_against_impl": len(funcs) - model_diffs,
         "distribution": hist,
+        "whole_graph_comparisons": dict(cfgeng.GRAPH_STATS),
     })
     return res.finish("proof")
